@@ -52,6 +52,12 @@ F3 = "C09-F3"
 
 
 
+# thresholds a caller passes to say "never stop": the largest values the int32 parameter takes
+NEVER_STOP = [2**31 - 1, 2**31 - 2, 2**30]
+# the gapped X-drop tables store 'threshold + 1 + score' in int32 (a threshold that leaves no room is
+# refused with OverflowError - a refusal, not a wrong result): the largest threshold with room for every score
+NEVER_STOP_GAPPED = [2**30, 2**30 - 1]
+
 def iscore(o, value, where=""):
     """The reported score as int; a non-integer score (e.g. None) is a violation, not a harness error."""
     if value is None or isinstance(value, (bool, str)) or not isinstance(value, (int, np.integer)):
@@ -302,11 +308,11 @@ def st_seeded(tier, for_ungapped=False):
             case["seed"] = [draw(st.integers(0, n - 1)), draw(st.integers(0, m - 1))]
         if case["flavour"] == "xdrop":
             case["threshold"] = draw(
-                st.one_of(st.integers(0, 3 if for_ungapped else 6), st.integers(0, 6), st.sampled_from([10**4, 10**6]))
+                st.one_of(st.integers(0, 3 if for_ungapped else 6), st.integers(0, 6), st.sampled_from([10**4, 10**6]), st.sampled_from(NEVER_STOP if for_ungapped else NEVER_STOP_GAPPED))
             )
         else:
             case["threshold"] = draw(
-                st.one_of(st.integers(0, 10), st.integers(0, 60), st.sampled_from([10**4, 10**6]), st.integers(0, 10**6))
+                st.one_of(st.integers(0, 10), st.integers(0, 60), st.sampled_from([10**4, 10**6]), st.integers(0, 10**6), st.sampled_from(NEVER_STOP if for_ungapped else NEVER_STOP_GAPPED))
             )
         case["direction"] = draw(st.sampled_from(["both", "both", "upstream", "downstream"]))
         return case
